@@ -74,6 +74,9 @@ EvVerdict(t, j) ==
                ELSE IF ev.out # o.out THEN "the.outcome"
                ELSE IF o.out = "value" /\ ~SameRow(o.row, ev.row) THEN "the.value"
                ELSE "ok"
+       [] ev.op = "rule" ->
+            IF ev.exc # "none" THEN "exception"
+            ELSE InferVerdict(RuleSeq(q, W), ev.insts)
        [] ev.op = "infer" ->
             IF ev.exc # "none" THEN "exception"
             ELSE InferVerdict(InferSeq(q, W), ev.insts)
